@@ -6,7 +6,7 @@ CONSTANTS
   MaxRace = 4
   ReleaseOnFailedCtor = TRUE
   RollbackKeepsLock = TRUE
-  AllowFailedRollback = FALSE
+  FailedRollbackKeepsLock = TRUE
   AtomicAcquire = TRUE
 INVARIANT AtMostOneWriter
 INVARIANT LockFreeIffNoWriter
